@@ -348,11 +348,19 @@ func (e *Entry) errorf(format string, v ...interface{}) {
 	e.Errors = append(e.Errors, fmt.Errorf(format, v...))
 }
 
-// addError appends err to the list of errors on e if err is not nil.
+// addError appends err to the list of errors on e if err is not nil and not
+// on the list yet: an error that several children of e have imported from one
+// source (a grouping used twice, say) is held once, not once per path.
 func (e *Entry) addError(err error) {
-	if err != nil {
-		e.Errors = append(e.Errors, err)
+	if err == nil {
+		return
 	}
+	for _, have := range e.Errors {
+		if have == err {
+			return
+		}
+	}
+	e.Errors = append(e.Errors, err)
 }
 
 // importErrors imports all the errors from c and its children into e.
